@@ -27,6 +27,7 @@ import (
 //	goto <dec>      command "goto"
 //	up <dec>        command "up"
 //	down <dec>      command "down"
+//	st <addr> <w> <expr>   Store into the memory while the view exists: "st <cursor>"
 //
 // Answers, joined by " | ": "ok <cursor>", "err <cursor>" (the Action
 // returned an error), "argerr <cursor>" (the argument parser rejected the
@@ -73,6 +74,7 @@ func opMemView(t *tokens) string {
 		name string
 		arg  string
 		n    int
+		st   store
 	}
 	k := t.int()
 	cmds := make([]cmd, 0, k)
@@ -85,6 +87,11 @@ func opMemView(t *tokens) string {
 			c.arg = string(t.hex())
 		case "goto", "up", "down":
 			c.arg = t.next()
+		case "st":
+			// a store into the memory while the view exists
+			c.st.addr = model.Addr(t.uint())
+			c.st.w = t.width()
+			c.st.ex = t.expr()
 		default:
 			panic(parseError("bad memview command " + c.name))
 		}
@@ -92,9 +99,9 @@ func opMemView(t *tokens) string {
 	}
 
 	var view *verifhook.C32MemView
+	var mem memory.Memory
 	overlap := false
 	built := protect(func() string {
-		var mem memory.Memory
 		switch kind {
 		case "sparse":
 			m := memory.NewSparse()
@@ -136,6 +143,13 @@ func opMemView(t *tokens) string {
 	for _, c := range cmds {
 		c := c
 		a := protect(func() string {
+			if c.name == "st" {
+				if mem == nil {
+					return "PANIC"
+				}
+				mem.Store(c.st.addr, c.st.ex, c.st.w)
+				return "st " + cursor()
+			}
 			if c.name == "print" {
 				text, err := view.Print(c.n)
 				if err != nil {
